@@ -16,6 +16,10 @@ pub struct Case {
     pub k8: bool,
     pub f: TreeSpec,
     pub g: TreeSpec,
+    /// arity 2 only: compose with this predefined tree (built in dimension out(f)) instead of `g` - activation
+    /// trees have identity-like terminals, which generated trees never have, and f may then be 16..20 wide
+    #[serde(default)]
+    pub g_schema: Option<crate::schema::SchemaSpec>,
     pub a: Aff,
     pub points: Vec<PointSpec>,
 }
@@ -29,12 +33,37 @@ pub fn tree_params_strategy(k: usize, in_dim: usize, out_dim: usize, max_depth: 
         .prop_map(move |(d, present_pct, pool_pct)| TreeParams { k, in_dim, out_dim, max_depth: d, present_pct, pool_pct })
 }
 
+fn schema_g_strategy() -> BoxedStrategy<Case> {
+    // f: n -> m with m ordinary or wide (16..=20), g = a predefined activation / head tree in dimension m
+    (1usize..=3, prop_oneof![3 => 1usize..=4, 1 => 16usize..=20], 1usize..=3)
+        .prop_flat_map(|(n, m, q)| {
+            // argmax over 16+ components is a tree of hundreds of nodes; the wide cases use the per-neuron
+            // activations (their terminals are the identity-like 16..20 wide maps that matter here)
+            let s = if m >= 16 { crate::schema::activation_spec().boxed() } else { crate::schema::schema_spec().boxed() };
+            (
+                tree_params_strategy(2, n, m, 2).prop_flat_map(tree_spec),
+                s,
+                aff(q, m),
+                proptest::collection::vec(point_spec(n), 6..12),
+            )
+        })
+        .prop_map(|(f, s, a, points)| {
+            let g = TreeSpec { in_dim: f.out_dim, out_dim: f.out_dim, pool: vec![], anchors: vec![], root: TNode::Leaf(LeafSpec::Fresh(Aff::identity(f.out_dim))), order: vec![], junk: vec![], leaf_scale: 0 };
+            Case { k4: false, k8: false, f, g, g_schema: Some(s), a, points }
+        })
+        .boxed()
+}
+
 fn strategy(tier: Tier) -> BoxedStrategy<Case> {
+    prop_oneof![14 => tree_pair_strategy(tier), 1 => schema_g_strategy()].boxed()
+}
+
+fn tree_pair_strategy(tier: Tier) -> BoxedStrategy<Case> {
     let maxd = tier.pick(3u32, 4u32);
     (prop_oneof![10 => Just(2usize), 9 => Just(4usize), 1 => Just(8usize)], sized_wide(3, 5), sized(3, 5), sized(3, 4), 1usize..=3)
         .prop_flat_map(move |(k, n, m, p, q)| {
             // arity 8: up to 64 terminals per tree at depth 2 already
-            let maxd = if k == 8 || n >= 8 { 2 } else { maxd };
+            let maxd = if n >= 8 && k > 2 { 1 } else if k == 8 || n >= 8 { 2 } else { maxd };
             (
                 Just(k),
                 tree_params_strategy(k, n, m, maxd).prop_flat_map(tree_spec),
@@ -43,7 +72,7 @@ fn strategy(tier: Tier) -> BoxedStrategy<Case> {
                 proptest::collection::vec(point_spec(n), 6..12),
             )
         })
-        .prop_map(|(k, f, g, a, points)| Case { k4: k == 4, k8: k == 8, f, g, a, points })
+        .prop_map(|(k, f, g, a, points)| Case { k4: k == 4, k8: k == 8, f, g, g_schema: None, a, points })
         .prop_flat_map(|c| (Just(c), 0u8..48, 20i8..=40))
         .prop_map(|(mut c, regime, e)| {
             // correlated scaling regimes (~4 % of the cases): every terminal map of f and every
@@ -73,6 +102,40 @@ fn strategy(tier: Tier) -> BoxedStrategy<Case> {
             c
         })
         .boxed()
+}
+
+fn run_schema_g(c: &Case, s: &crate::schema::SchemaSpec, ctx: &mut Ctx) -> CaseResult {
+    let (n, m) = (c.f.in_dim, c.f.out_dim);
+    if matches!(s, crate::schema::SchemaSpec::Argmax | crate::schema::SchemaSpec::ClassChar { .. }) && m < 2 {
+        ctx.class("schema_needs_dim2_skipped");
+        return Ok(());
+    }
+    ctx.class("g_is_schema");
+    ctx.class_if(m >= 16, "wide_middle_dimension");
+    ctx.class(s.name());
+    let fr = c.f.resolve(&[]);
+    let fref = fr.to_ref();
+    let f = fr.build::<2>(&c.f.order, &c.f.junk);
+    let g = must("schema tree", || s.build(m))?;
+    let gref = s.reference(m);
+    let href = fref.then(&gref);
+    if !s.is_exact() || !href.max_bits().map(|b| b <= 50).unwrap_or(false) || href.count_leaves() > 2000 {
+        ctx.class("inexact_skipped");
+        return Ok(());
+    }
+    let f_anchors = c.f.all_anchors(&[]);
+    let inputs: Vec<Vec<crate::exact::Q>> = c.points.iter().map(|p| qv(&p.resolve(&f_anchors, n))).collect();
+    let g_before = pwl::dump(&g);
+    let mut h = f.clone();
+    must("compose::<false,false>(schema)", || h.compose::<false, false>(&g))?;
+    if pwl::dump(&g) != g_before {
+        return Err(Failure::new("compose changed its right operand"));
+    }
+    let out = compare_tree("f.compose::<false,_>(predefined tree)", &h, &href, &inputs, &EquivMode::exact()).map_err(|(m, d)| Failure::with(m, d))?;
+    ctx.count("inputs", out.inputs as u64);
+    ctx.count("inputs_on_boundary", out.on_boundary as u64);
+    ctx.set_nontrivial(fr.num_decisions() >= 1 && out.stats.fulldim_lhs >= 2);
+    Ok(())
 }
 
 fn run_k<const K: usize>(c: &Case, ctx: &mut Ctx) -> CaseResult {
@@ -183,6 +246,9 @@ impl Property for C02 {
         strategy(tier)
     }
     fn run(&self, case: &Case, ctx: &mut Ctx) -> CaseResult {
+        if let (Some(s), false, false) = (&case.g_schema, case.k4, case.k8) {
+            return run_schema_g(case, s, ctx);
+        }
         ctx.class(if case.k8 { "k8" } else if case.k4 { "k4" } else { "k2" });
         if case.k8 {
             run_k::<8>(case, ctx)
